@@ -436,6 +436,42 @@ fn column_oracle(run: &mut Run, id: &str, total: i32, patterns: &[Vec<Note>], wh
     }
 }
 
+/// MPN lines: the slider arithmetic of `PathObjectPatternGenerator::new` (end time, segment duration)
+/// for every slider of a source map, plus the relations the generators rely on.
+pub fn path_new_lines(run: &mut Run, id: &str, src: &Beatmap, repro: &str) {
+    for (k, h) in src.hit_objects.iter().enumerate() {
+        let rosu_pp::model::hit_object::HitObjectKind::Slider(sl) = &h.kind else { continue };
+        let (m2, st, rp, ed) = (src.clone(), h.start_time, sl.repeats, sl.expected_dist);
+        let Ok(p) = guarded(move || gen::path_new_probe(&m2, st, rp, ed)) else {
+            run.count("mpn:probe-panicked");
+            continue;
+        };
+        // `end_time - start_time` itself overflows `i32` (negative start, end saturated at i32::MAX):
+        // the release build wraps (negative segment duration), the model is the checked semantics
+        if i64::from(p.end_time) - i64::from(p.start_time) > i64::from(i32::MAX) {
+            run.count("mpn:excluded:end-minus-start-overflows-i32");
+            continue;
+        }
+        run.count("mpn:lines");
+        run.count(&format!("mpn:segment:{}", match p.segment_duration { i32::MIN..=-1 => "<0", 0 => "0", 1..=90 => "1-90", 91..=120 => "91-120", 121..=160 => "121-160", 161..=200 => "161-200", 201..=400 => "201-400", _ => ">400" }));
+        if p.dist >= 0.0 && p.beat_len >= 0.0 && p.slider_multiplier > 0.0 {
+            run.count("mpn:non-negative-inputs");
+            if p.end_time < p.start_time || p.segment_duration < 0 || i64::from(p.segment_duration) * i64::from(p.span_count) > i64::from(p.end_time) - i64::from(p.start_time) {
+                run.fail("oracle:mania-path-new-relations", "", id, format!("{p:?}"), repro.to_owned());
+            }
+        } else {
+            run.count("mpn:negative-input");
+        }
+        let lid = format!("{id}/new-{k}");
+        run.repro.insert(lid.clone(), repro.to_owned());
+        run.line(
+            &lid,
+            format!("MPN {} {} {} {} {}", p.start_time, p.span_count, p.dist.to_bits(), p.beat_len.to_bits(), p.slider_multiplier.to_bits()),
+            format!("{} {}", p.end_time, p.segment_duration),
+        );
+    }
+}
+
 /// One traced conversion: MPT line + oracles. `plain` is the output of the untraced `convert`.
 pub fn trace_map(run: &mut Run, id: &str, src: &Beatmap, mods: &GameMods, plain: &Beatmap, repro: &str) {
     let (s2, m2) = (src.clone(), mods.clone());
@@ -472,6 +508,13 @@ pub fn trace_map(run: &mut Run, id: &str, src: &Beatmap, mods: &GameMods, plain:
                 run.count(&format!("trace:hit:branch:{}", hit_branch(total, *convert_type, prev, cd)));
                 let occ = prev.iter().collect::<BTreeSet<_>>().len();
                 run.count(&format!("trace:prev-occupancy:keys={total}:{occ}"));
+                // the two 7K+1 facts (`Free8`) the no-panic theorem assumes of every previous pattern
+                if total == 8 && prev.len() == 1 && prev[0] == 0 {
+                    run.fail("oracle:mania-8K-lone-special-column", "", id, format!("previous pattern is a lone note in column 0 (convert_type {convert_type})"), repro.to_owned());
+                }
+                if total == 8 && convert_type & MIRROR != 0 {
+                    run.fail("oracle:mania-8K-mirror-flag", "", id, format!("convert_type {convert_type} has MIRROR in 7K+1"), repro.to_owned());
+                }
                 if total == 8 && (1..8).all(|c| prev.contains(&c)) {
                     run.fail("oracle:mania-8K-no-free-column", "", id, format!("previous pattern {prev:?} occupies all of columns 1-7"), repro.to_owned());
                 }
